@@ -246,7 +246,7 @@ def build(history: list[tuple[str, ...]], bare: bool, spacing: float, preexistin
     handlers = [dict(id='ev', on='event', script=['ok']),
                 dict(id='c1', on='create', script=['ok']), dict(id='u1', on='update', script=['temp', 'ok']),
                 dict(id='d1', on='delete', script=['temp', 'ok']), dict(id='r1', on='resume', script=['ok']),
-                dict(id='r2', on='resume', script=['ok'], deleted=True)]
+                dict(id='r2', on='resume', script=['ok'], deleted=True), dict(id='r3', on='resume', script=['ok'], deleted=False)]
     t = 1.0
     user: list[tuple] = [(t, 'createbare' if bare else 'create', 'a')] if not preexisting else []
     if preexisting:     # created while no operator was running: found by the initial listing, never handled before
